@@ -26,9 +26,57 @@ import (
 	"fmt"
 	"reflect"
 	"runtime"
+	"runtime/debug"
+	"strings"
+	"testing"
 )
 
 var vs_candidates = []string{""}
+
+// vsReplayDriver runs the counterexample as the solver gave it and then, because the values of
+// uninterpreted library functions (regular expressions, trimming, ...) in the model need not
+// agree with the real library, variants of it in which the model's strings are replaced by
+// strings from a small dictionary. Every variant is checked against the real code with the
+// run-time preconditions and oracle, so a reproduction is genuine whichever variant it is.
+func vsReplayDriver(t *testing.T, body func(*testing.T, func(string) string)) {
+	seen := []string{}
+	if !t.Run("model", func(t *testing.T) {
+		body(t, func(s string) string {
+			for _, o := range seen {
+				if o == s {
+					return s
+				}
+			}
+			seen = append(seen, s)
+			return s
+		})
+	}) {
+		return
+	}
+	dict := []string{"", " ", "\t", "x", "  x", "//", "-", "\n", "a,b", "0", "---", "x:", "é"}
+	if len(seen) > 6 {
+		seen = seen[:6]
+	}
+	for _, d := range dict {
+		d := d
+		if !t.Run("all="+d, func(t *testing.T) { body(t, func(string) string { return d }) }) {
+			return
+		}
+		for _, k := range seen {
+			k := k
+			if !t.Run("one="+d, func(t *testing.T) {
+				body(t, func(s string) string {
+					if s == k {
+						return d
+					}
+					return s
+				})
+			}) {
+				return
+			}
+		}
+	}
+}
 
 // old() support at run time: phase 1 (before the call) records the value of every
 // vs_old(e) reached, keyed by call site and quantifier bindings; phase 2 (after the
@@ -37,6 +85,8 @@ var vs_phase int
 var vs_oldLog = map[string]any{}
 var vs_bind []any
 
+func vsStack() string { return string(debug.Stack()) }
+func vsContains(s, sub string) bool { return strings.Contains(s, sub) }
 func vs_assume(b bool) { if !b { panic("vs_assume violated") } }
 func vs_assert(b bool) { if !b { panic("vs_assert violated") } }
 func vs_cover(b bool) {}
@@ -437,7 +487,7 @@ func (vb *valueBuilder) build(term string, t types.Type, depth int) string {
 				return `""`
 			}
 			vb.strs[s] = true
-			return fmt.Sprintf("%s(%s)", vb.typeStr(t), strconv.Quote(s))
+			return fmt.Sprintf("%s(vs_s(%s))", vb.typeStr(t), strconv.Quote(s))
 		}
 		return vb.zeroExpr(t)
 	case *types.Pointer:
@@ -712,7 +762,7 @@ func replayObligation(e *Engine, o *Obligation, outDir, work string) (string, bo
 		}
 	}
 	src.WriteString(")\n\n")
-	fmt.Fprintf(&src, "// replay of %s\nfunc TestVerifReplay(t *testing.T) {\n", o.Name)
+	fmt.Fprintf(&src, "// replay of %s\nfunc TestVerifReplay(t *testing.T) { vsReplayDriver(t, vsReplayBody) }\n\nfunc vsReplayBody(t *testing.T, vs_s func(string) string) {\n\tvs_oldLog = map[string]any{}\n\tvs_candidates = []string{\"\"}\n", o.Name)
 	var cands []string
 	for s := range vb.strs {
 		cands = append(cands, strconv.Quote(s))
@@ -750,7 +800,7 @@ func replayObligation(e *Engine, o *Obligation, outDir, work string) (string, bo
 		// phase 1: record old() values before the call
 		fmt.Fprintf(&src, "\tvs_phase = 1\n\tfunc() { defer func() { recover() }(); %s(%s) }()\n\tvs_phase = 0\n", oracle, strings.Join(append(append([]string{}, names...), resNames...), ", "))
 	}
-	src.WriteString("\tvar vs_panic any\n\tfunc() {\n\t\tdefer func() { vs_panic = recover() }()\n")
+	src.WriteString("\tvar vs_panic any\n\tvar vs_stack string\n\t_ = vs_stack\n\tfunc() {\n\t\tdefer func() { vs_panic = recover(); if vs_panic != nil { vs_stack = vsStack() } }()\n")
 	if nres > 0 {
 		fmt.Fprintf(&src, "\t\t%s = %s\n", strings.Join(resNames, ", "), call)
 	} else {
@@ -762,6 +812,12 @@ func replayObligation(e *Engine, o *Obligation, outDir, work string) (string, bo
 		src.WriteString("\tif s, ok := vs_panic.(string); ok && s == \"vs_assume violated\" { t.Skip(\"model violates lemma hypothesis\") }\n")
 		src.WriteString("\tif vs_panic != nil { t.Fatalf(\"VERIF-REPRODUCED: %v\", vs_panic) }\n")
 	case oracle == "":
+		// the panic must come from the very statement the obligation guards
+		site := o.Pos
+		if i := strings.LastIndex(site, "/"); i >= 0 {
+			site = site[i+1:]
+		}
+		fmt.Fprintf(&src, "\tif vs_panic != nil && !vsContains(vs_stack, %q) { t.Skipf(\"the real function panics elsewhere: %%v\", vs_panic) }\n", site+" ")
 		src.WriteString("\tif vs_panic != nil { t.Fatalf(\"VERIF-REPRODUCED: the real function panics: %v\", vs_panic) }\n")
 	default:
 		src.WriteString("\tif vs_panic != nil { t.Fatalf(\"VERIF-REPRODUCED: the real function panics instead of returning: %v\", vs_panic) }\n")
